@@ -203,6 +203,9 @@ def check_site_link(rng, url):
     try:
         root, outside, files = build_fs(rng, scratch)
         md = "# R for 2\n\n    1 x\n\n[L](%s)\n\n![I](%s)\n" % (url, url) if " " not in url else "# R for 2\n\n    1 x\n\n[L](<%s>)\n" % url
+        if ";" in url:
+            # (Markdown percent-encodes a ';' in a link destination; raw HTML hands it on as written)
+            md = "# R for 2\n\n    1 x\n\n<img src=\"%s\" alt=\"J\">\n\n<a href=\"%s\">H</a>\n" % (url, url)
         (root / "a" / "recipe.md").write_text(md)
         want = classify(root, root / "a", url)
         site_out = scratch / "out"
